@@ -184,6 +184,31 @@ def run_unit(unit):
                 if arr.shape != ref_i.shape or not np.array_equal(np.nan_to_num(arr, nan=-1), np.nan_to_num(ref_i, nan=-1)):
                     part.violation(PID, 'analysis-intensity-is-traced-intensity', nm, f'analysis={nm}', dict(det0, field=fi),
                                    observed=arr[:4], expected=ref_i[:4])
+        # RayFan (two line fans per field, each with its own intensity array) and EncircledEnergy
+        from optiland.analysis import RayFan, EncircledEnergy
+        nf_ = 9
+        rf = RayFan(o, fields='all', wavelengths=[w], num_points=nf_)
+        ee = EncircledEnergy(o, fields='all', wavelength=w, num_rays=3, distribution='hexapolar', num_points=8)
+        part.transitions += 2
+        for fi, (hx, hy) in enumerate(o.fields.get_field_coords()):
+            exp = {}
+            for axis, dname in (('x', 'line_x'), ('y', 'line_y')):
+                o.trace(hx, hy, w, nf_, dname)
+                exp[axis] = np.asarray(o.surface_group.intensity[-1], dtype=float).copy()
+            got = rf.data[f'{(hx, hy)}'][f'{w}']
+            if not np.array_equal(exp['x'] == 0, exp['y'] == 0):
+                part.count('ray-fans-clipped-differently-in-x-and-y')
+            for axis in ('x', 'y'):
+                arr = np.asarray(got[f'intensity_{axis}'], dtype=float)
+                if arr.shape != exp[axis].shape or not np.array_equal(np.nan_to_num(arr, nan=-1), np.nan_to_num(exp[axis], nan=-1)):
+                    part.violation(PID, 'analysis-intensity-is-traced-intensity', 'RayFan', 'analysis=RayFan', dict(det0, field=fi, fan=axis),
+                                   observed=arr, expected=exp[axis])
+            o.trace(hx, hy, w, 3, 'hexapolar')
+            ref_i = np.asarray(o.surface_group.intensity[-1], dtype=float).copy()
+            arr = np.asarray(ee.data[fi][0][2], dtype=float)
+            if arr.shape != ref_i.shape or not np.array_equal(np.nan_to_num(arr, nan=-1), np.nan_to_num(ref_i, nan=-1)):
+                part.violation(PID, 'analysis-intensity-is-traced-intensity', 'EncircledEnergy', 'analysis=EncircledEnergy', dict(det0, field=fi),
+                               observed=arr[:4], expected=ref_i[:4])
     # ---- histories: edits of the apertures after construction (scale_system, aperture.scale, direct assignment)
     if len(unit['word']) <= 2 and any(s_.get('aperture') for s_ in surfs):
         w = 0.5876
